@@ -262,7 +262,8 @@ def run(tier, seed):
                 'at a gap landing on a deadline, both the arrival-first and the expiry-first order, and every order of '
                 'same-instant timer expiries; then silence until the session ends. distinct_nontrivial = distinct '
                 '(base state, H>0, ended?, gap-label sequence) classes' % (list(HOLDS), depth),
-        'samples': [{'hc': 180, 'hp': 90, 'base': 'ESTABLISHED', 'schedule': 'H/3:KA H:KA(expiry-first) -> closed at last arrival + H'}],
+        'samples': [{'hold_configured': t[0], 'hold_proposed': t[1], 'base': t[2], 'schedule': [list(x) for x in report.pick(t[3], seed, 1)[0]]}
+                    for t in report.pick([t for t in tasks if t[3] and t[3][-1]], seed, 3)],
         'schedules': nsched, 'executions_including_tie_branches': runs, 'hold_pairs': len(HOLDS) ** 2,
         'exhaustive': True, 'violation_keys': summary,
     }
